@@ -236,11 +236,6 @@ Definition ends_other_sep (s : str) : bool :=
   match last_char s with Some c => is_linebreak c && negb (is_crlf c) | None => false end.
 
 (* ---- what the drivers print ------------------------------------------------------------------- *)
-Definition query (guard : bool) (v : variant) (s : str) (pos : nat)
-  : option lineinfo_t * option nat * option nat * option nat :=
-  let inp := mk_input v s in
-  (lineinfo_of inp pos, lineat_of guard inp pos, poscol_of guard inp pos, posline_of inp pos).
-
 Definition query_all (guard : bool) (v : variant) (s : str) (upto : nat) :=
   let inp := mk_input v s in
   map (fun pos => (lineinfo_of inp pos, lineat_of guard inp pos, poscol_of guard inp pos, posline_of inp pos,
